@@ -424,6 +424,122 @@ def real_clock_run(ctx):
     log("trace real-clock (guard off): %d events, %d findings for %s" % (res2.events, len(bad), ctx.prop))
 
 
+def measured_filter(rows, T):
+    """Keeps of every segment (from one `new` of the first instance to the next) the longest prefix in which
+    every poll's early / late classification in declared time (`sn`) is confirmed by the measured brackets
+    (`r0`, `r1`) against every earlier feed of the same channel to the same instance.  Returns the kept
+    events and counters.  This is a filter on which OBSERVATIONS are conclusive; it computes no expectation."""
+    kept, stats = [], {"segments": 0, "segments_cut": 0, "polls_kept": 0, "polls_early": 0, "polls_late": 0}
+    feeds = {}
+    cut = False
+    first_id = None
+    i = 0
+    while i < len(rows):
+        e = rows[i]
+        if e["op"] == "new":
+            if first_id is None:
+                first_id = e["id"]
+            if e["id"] == first_id:
+                stats["segments"] += 1
+                cut = False
+            feeds[e["id"]] = {}
+            kept.append(e)
+            i += 1
+            continue
+        if e["op"] == "tick":
+            kept.append(e)
+            i += 1
+            continue
+        # a unit = the event on the first instance and, if present, its twin on the second
+        unit = [e]
+        if i + 1 < len(rows) and rows[i + 1].get("tw") == 1:
+            unit.append(rows[i + 1])
+        i += len(unit)
+        if cut:
+            continue
+        ok = True
+        for u in unit:
+            if u["op"] != "poll":
+                continue
+            for f in feeds[u["id"]].get(u["ch"], []):
+                late = u["sn"] - f["sn"] >= T
+                if late and not (u["r0"] - f["r1"] >= T * 1000):
+                    ok = False
+                if not late and not (u["r1"] - f["r0"] < T * 1000):
+                    ok = False
+        if not ok:
+            cut = True
+            stats["segments_cut"] += 1
+            continue
+        for u in unit:
+            if u["op"] == "feed" and u["m"][0] < 240:
+                feeds[u["id"]].setdefault(u["m"][0] % 16, []).append(u)
+            if u["op"] == "poll" and u["id"] == first_id:
+                stats["polls_kept"] += 1
+                fs = feeds[u["id"]].get(u["ch"], [])
+                if any(u["sn"] - f["sn"] < T for f in fs):
+                    stats["polls_early"] += 1
+                elif fs:
+                    stats["polls_late"] += 1
+            kept.append(u)
+    return kept, stats
+
+
+def measured_clock_run(ctx, T=300):
+    """Production configuration against the real clock with outcomes that depend on real time being SHORT,
+    made sound by measurement (gen.real_time_measured, measured_filter): C13 (no report before the timeout,
+    the report at the first poll after it) and C15 (another channel's traffic and polls do not move a
+    channel's deadline) in the code that ships, where no scripted clock reaches."""
+    rows = gen.real_time_measured(ctx.rng, ctx.q(14, 120), T=T)
+    script = ctx.work.fresh("script_measured-clock_", "ndjson")
+    write_ndjson(script, rows)
+    run_measured_file(ctx, script, T)
+
+
+def run_measured_file(ctx, script, T=None):
+    from common import exec_script
+    if T is None:
+        T = [r["to"] for r in read_ndjson(script) if r["op"] == "new"][0]
+    exec_script(script, script + ".raw", config="nohook")
+    kept, st = measured_filter(read_ndjson(script + ".raw"), T)
+    trace = script + ".trace"
+    write_ndjson(trace, kept)
+    res2 = validate_trace(ctx.work, trace)
+    tool = res2.of("TOOLERR") + [v for v in res2.of("VIOL") if v[1] == "TOOL"]
+    if tool:
+        raise ToolError("the machinery is inconsistent on the measured-clock run: %s" % tool[:5])
+    bad = [v for v in res2.of("VIOL") if v[1] == ctx.prop]
+    for v in res2.of("VIOL"):
+        if v[1] != ctx.prop:
+            ctx.other[v[1]] = ctx.other.get(v[1], 0) + 1
+    ctx.traces += 1
+    ctx.events += res2.events
+    for k, v in res2.stats.items():
+        ctx.stats[k] = ctx.stats.get(k, 0) + v
+    ctx.extra = getattr(ctx, "extra", {})
+    ctx.extra["measured_real_clock"] = dict(st, timeout_ms=T)
+    if st["polls_early"] == 0 or st["polls_late"] == 0:
+        ctx.notes.append("measured real-clock run: no conclusive early or late poll survived the bracket filter (%s)" % st)
+    if bad:
+        first = min(v[3] for v in bad)
+        ev = kept[first - 1] if first - 1 < len(kept) else None
+        ctx.viol.append({"clause": [v[2] for v in bad if v[3] == first][0], "trace_index": first, "event": ev,
+                         "replay": save_replay(ctx, script, script + ".raw", _raw_index(read_ndjson(script + ".raw"), ev, first), "measured-clock"),
+                         "count": len(bad), "driver": "measured real clock (guard off)"})
+    log("trace measured-clock (guard off): %d events kept of %d segments (%d cut), %d findings for %s"
+        % (res2.events, st["segments"], st["segments_cut"], len(bad), ctx.prop))
+
+
+def _raw_index(raw, ev, default):
+    """1-based position in the unfiltered trace of the event reported in the filtered one."""
+    if ev is None:
+        return default
+    for i, r in enumerate(raw):
+        if r.get("r0") == ev.get("r0") and r.get("id") == ev.get("id") and r.get("op") == ev.get("op"):
+            return i + 1
+    return default
+
+
 def long_run_battery(ctx, kinds, to_poll=5):
     """Partial progress, then ONE call repeated n times (n up to 2^16 + 1, summarised by `skip` events),
     then completion; twins that are spared the run.  Exposes counters, ages, generation numbers and
